@@ -70,7 +70,7 @@ func VerifH_C02_manyBlocks() {
 	procs := vRange("procs", 1, 2)
 	c := &c09File{f: &mFile{hasHeader: true, header: simpleHeader()}}
 	for b := 0; b < vParam("blocks", 30); b++ {
-		m := simpleBlock(1)
+		m := simpleBlock(2)
 		c.f.blocks = append(c.f.blocks, m)
 		c.want = append(c.want, m.expected()...)
 	}
@@ -82,9 +82,57 @@ func VerifH_C02_manyBlocks() {
 		if len(got) > len(c.want) {
 			break
 		}
+		// a slow consumer: between two objects of a block the rest of the pipeline
+		// runs as far as it can
+		vYield()
 	}
 	vReach("scanned")
 	vAssert(sc.Err() == nil, "no-error")
-	vAssert(vSame(got, c.want), "file-order-and-content")
+	vAssert(len(got) == len(c.want), "nothing-lost-or-duplicated")
+	for k := range got {
+		if k < len(c.want) {
+			vAssert(vSame(got[k], c.want[k]), "file-order-and-content")
+		}
+	}
+	sc.Close()
+}
+
+// VerifH_C02_foreignBlock: a file block of a type that is neither OSMHeader nor
+// OSMData sits between data blocks. Whether the scan stops there with an error or
+// goes on, what was delivered is a gap-free prefix of the file order (the whole file
+// if no error is reported), whatever the decoder count.
+func VerifH_C02_foreignBlock() {
+	procs := vRange("procs", 1, vParam("maxProcs", 3))
+	nb := vParam("blocks", 4)
+	at := vRange("foreignBefore", 0, nb-1)
+	var data []byte
+	data = append(data, frame("OSMHeader", simpleHeader())...)
+	var want []osm.Object
+	for b := 0; b < nb; b++ {
+		if b == at {
+			data = append(data, frame("OSMIndex", []byte{1, 2, 3})...)
+		}
+		m := simpleBlock(1)
+		data = append(data, frame("OSMData", m.encode())...)
+		want = append(want, m.expected()...)
+	}
+	sc := New(context.Background(), &vReader{data: data}, procs)
+	var got []osm.Object
+	for sc.Scan() {
+		got = append(got, sc.Object())
+		if len(got) > len(want) {
+			break
+		}
+	}
+	vReach("scanned")
+	vAssert(len(got) <= len(want), "nothing-duplicated")
+	for k := range got {
+		if k < len(want) {
+			vAssert(vSame(got[k], want[k]), "delivered-objects-are-a-prefix-of-file-order")
+		}
+	}
+	if sc.Err() == nil {
+		vAssert(len(got) == len(want), "no-error-means-nothing-lost")
+	}
 	sc.Close()
 }
